@@ -26,12 +26,13 @@ EXPLANATION = (
     "branch). R-C17-6: Tresca takes the maximum over all three eigenvalue pairs (= largest minus smallest on every "
     "ordering) and abs_max_principal selects the largest eigenvalue iff w_max + w_min >= 0. Not decided: Mises <= Tresca <= "
     "2/sqrt(3) Mises, eigen-solver accuracy.")
+EXPLANATION += (' R-C17-7: every square root in the equivalent-stress module takes a radicand that is non-negative by its form (sums and products of even powers, x*x, abs, non-negative constants; no differences), so that cancellation cannot round it below zero (hydrostatic states).')
 ASSUMPTIONS = ["np.linalg.eigvalsh returns ascending eigenvalues of the symmetric matrix given by its UPLO triangle (default 'L')",
                "numpy stacks a 3x3 list of arrays as (3,3,N); .T reverses all axes"]
 
 
 def run(ctx):
-    for r in (_r1, _r2, _r3, _r4, _r5, _r6):
+    for r in (_r1, _r2, _r3, _r4, _r5, _r6, _r7):
         ctx.attempt(r)
 
 
@@ -173,6 +174,79 @@ def _r3(ctx):
     else:
         ctx.violated(f, st, "mises radicand %r is not 3/2*tr(dev(S)^2) = %r: the result is no longer the von Mises invariant"
                      % (got, _mises_reference()))
+
+
+def _manifest_nonneg(e):
+    """True if the expression is non-negative in floating point for every real input by its very form: even powers,
+    x*x, abs, non-negative constants, sums and products of such.  A difference is never accepted (cancellation can round
+    below zero)."""
+    if isinstance(e, ast.Constant):
+        return isinstance(e.value, (int, float)) and not isinstance(e.value, bool) and e.value >= 0
+    if isinstance(e, ast.BinOp):
+        if isinstance(e.op, ast.Pow):
+            k = const_value(e.right)
+            return isinstance(k, int) and not isinstance(k, bool) and k % 2 == 0 and k >= 0
+        if isinstance(e.op, ast.Add):
+            return _manifest_nonneg(e.left) and _manifest_nonneg(e.right)
+        if isinstance(e.op, ast.Mult):
+            fac = []
+
+            def flat(x):
+                if isinstance(x, ast.BinOp) and isinstance(x.op, ast.Mult):
+                    flat(x.left)
+                    flat(x.right)
+                else:
+                    fac.append(x)
+            flat(e)
+            rest = {}
+            for x in fac:
+                if not _manifest_nonneg(x):
+                    rest[norm_text(x)] = rest.get(norm_text(x), 0) + 1
+            return all(k % 2 == 0 for k in rest.values())
+        if isinstance(e.op, ast.Div):
+            return _manifest_nonneg(e.left) and _manifest_nonneg(e.right)
+        return False
+    if isinstance(e, ast.Call):
+        fn = call_name(e) or ""
+        if fn in ("np.abs", "abs", "np.fabs", "np.absolute", "np.square"):
+            return True
+        if fn in ("np.maximum", "max", "np.fmax") and len(e.args) == 2:
+            return any(_manifest_nonneg(a) for a in e.args)
+        if fn in ("np.sqrt",) and e.args:
+            return True
+        if fn in ("np.sum", "sum") and e.args:
+            return _manifest_nonneg(e.args[0])
+        return False
+    if isinstance(e, ast.UnaryOp) and isinstance(e.op, ast.UAdd):
+        return _manifest_nonneg(e.operand)
+    return False
+
+
+def _r7(ctx):
+    """Every square root in the equivalent-stress module takes a radicand that is non-negative by its form (sum of squares).
+    An algebraically non-negative difference of products (s11^2 + ... - s11*s22 - ...) can round below zero - for hydrostatic
+    states the exact value is 0 - and then the square root is NaN."""
+    prog = ctx.prog
+    ctx.rule("R-C17-7", floor=1, what="radicands of square roots are non-negative by form (no cancellation below zero)")
+    n = 0
+    for key, fi in sorted(prog.functions.items()):
+        if fi.module.name != EQ:
+            continue
+        for c in calls_in(fi.node):
+            if (call_name(c) or "") in ("np.sqrt", "numpy.sqrt", "math.sqrt") and c.args or \
+                    ((call_name(c) or "") in ("np.power", "pow") and len(c.args) == 2 and const_value(c.args[1]) == 0.5):
+                n += 1
+                st = c
+                while not isinstance(st, ast.stmt):
+                    st = st._parent
+                if _manifest_nonneg(c.args[0]):
+                    ctx.holds(fi, st, "%s: radicand %s is a sum of squares" % (fi.name, norm_text(c.args[0])[:80]))
+                else:
+                    ctx.violated(fi, st, "%s: the radicand %s is not non-negative by its form; where it is exactly zero "
+                                 "(hydrostatic tensors, e.g. mises(0.7, 0.7, 0.7, 0, 0, 0)) rounding can make it negative and the "
+                                 "result NaN" % (fi.name, norm_text(c.args[0])[:160]), text="radicand " + fi.name)
+    if n == 0:
+        raise AnalysisError("no square root found in the equivalent-stress module")
 
 
 def _deg(e, env):
@@ -466,6 +540,26 @@ EP = "src/pylife/stress/equistress.py"
 def variants():
     out = []
 
+    def mises_expanded(tree):
+        f = find_func(tree, "mises")
+        for c in calls_in(f):
+            if call_name(c) == "np.sqrt":
+                c.args[0] = parse_expr("s11 ** 2 + s22 ** 2 + s33 ** 2 - s11 * s22 - s11 * s33 - s22 * s33 "
+                                       "+ 3 * (s12 ** 2 + s13 ** 2 + s23 ** 2)")
+                return True
+        return False
+    out.append(witness("Mises radicand in expanded form (can round below zero)", EP, mises_expanded, "R-C17-7"))
+
+    def mises_squares_reordered(tree):
+        f = find_func(tree, "mises")
+        for c in calls_in(f):
+            if call_name(c) == "np.sqrt":
+                c.args[0] = parse_expr("((s11 - s22) ** 2 + (s22 - s33) ** 2 + (s33 - s11) ** 2) / 2 "
+                                       "+ 3 * s12 * s12 + 3 * s13 ** 2 + 3 * s23 ** 2")
+                return True
+        return False
+    out.append(twin("Mises radicand as another sum of squares", EP, mises_squares_reordered))
+
     def swap_cols(tree):
         f = find_func(tree, "StressTensorEquistress.mises")
         for n in ast.walk(f):
@@ -525,8 +619,11 @@ def variants():
                 n.left = ast.Name(id="s22", ctx=ast.Load())
                 n.right = ast.Name(id="s23", ctx=ast.Load())
                 return True
+            if isinstance(n, ast.BinOp) and isinstance(n.op, ast.Sub) and norm_text(n) == "s22 - s33":
+                n.right = ast.Name(id="s23", ctx=ast.Load())
+                return True
         return False
-    out.append(witness("s22*s23 for s22*s33", EP, mises_term, "R-C17-3"))
+    out.append(witness("one normal-stress term of the Mises radicand uses s23 for s33", EP, mises_term, "R-C17-3"))
 
     def tresca_sq(tree):
         f = find_func(tree, "tresca")
